@@ -86,3 +86,8 @@ add("C06", "c06", "exploration", 3000, 100000,
 add("C18", "c18", "exploration", 3000, 60000,
     assumptions=["responses are served by a scripted RoundTripper that always sets Response.Request (as a real transport does) and fails every request once the script is exhausted: that makes 'the server's answers are finite' concrete",
                  "a call that has not returned after 10 s is reported as looping without progress (normal calls take microseconds)"])
+
+add("C16", "c16", "exploration", 1000, 20000, module="harness26", toolchain="go1.26.8", exhaustive_if=["UnifyConcurrentSchedules"], qshards=8, tshards=16,
+    assumptions=["go1.26.8 testing/synctest: every event of an enumerated schedule is separated from the next by synctest.Wait, so the order is exact",
+                 "members are scripted fakes (they answer when told, or only once their context is cancelled)",
+                 "a leaked goroutine makes the runtime abort the process when the bubble ends: the failure is persisted before that and the driver reports it"])
